@@ -94,6 +94,7 @@ def evaluate(case):
             alias = case.get("alias") if (tree["dirs"] and not case["lone"]) else None
             if alias:
                 os.symlink(sorted(tree["dirs"])[0], os.path.join(home, "zz_alias"))
+                os.symlink(sorted(tree["dirs"])[0], os.path.join(home, "zz_alias2"))
             if case.get("strip") or case.get("excl") or alias:
                 f.write("input:\n")
             if alias:
@@ -162,7 +163,8 @@ def evaluate(case):
                     else:
                         run(args_for("./" + target_rel if lone else ".", out), home)
                 elif kind == "moved":
-                    dst = sb.path("else", f"moved{i}", "deeper", "in")
+                    # the new absolute location has characters that are special in regular expressions and glob patterns
+                    dst = sb.path("else", f"moved{i}", ["deeper", "g++ (2) [1]", "a.b*c", "x^y$z"][n % 4 if i % 2 else 1], "in")
                     shutil.copytree(home, dst, symlinks=True)
                     run(args_for(input_abs(dst), out), sb.path("cwd"), order=order if n == 2 else None)
                 elif kind == "hashseed":
